@@ -289,7 +289,7 @@ def decode(data, enc, path):
     try:
         return data.decode(enc)
     except Exception:
-        raise Reject("StringError", "decode", None)      # the library raises this one without a path
+        raise Reject("StringError", "decode", path)
 
 
 def encode(v, enc, path):
@@ -300,7 +300,7 @@ def encode(v, enc, path):
     try:
         return v.encode(enc)
     except Exception:
-        raise Reject("StringError", "encode", None)
+        raise Reject("StringError", "encode", path)
 
 
 def strip_pad(data, pad):
